@@ -10,7 +10,7 @@
    state, so a run cut anywhere satisfies it; C01_nothing_to_do* say when Done is certain from the input alone. *)
 From Coq Require Import ZArith List Arith Permutation QArith.
 From BCT Require Import Base.Mat Base.ListX Model.Rewire Model.RewireSpec Proofs.RewireSwap Proofs.RewireInv Proofs.RewireRun Proofs.RewireBin Proofs.RewireSpec Gen.RewireTable.
-From BCT Require Import Model.Components Model.RewireBin Proofs.RewireBinFull Proofs.RewireBinZero Proofs.RewireOutcome Proofs.RewireRefuted Proofs.RewireExamples.
+From BCT Require Import Model.Components Model.RewireBin Proofs.RewireBinFull Proofs.RewireBinZero Proofs.RewireOutcome Proofs.RewireDiag Proofs.RewireRefuted Proofs.RewireExamples.
 Import ListNotations.
 Open Scope Z_scope.
 
@@ -21,7 +21,7 @@ Open Scope Z_scope.
 (* every reachable state of every run of the eight engine routines: final state and each accepted swap *)
 Theorem C01_run_invariant : forall r n R0 itr D s0 res,
   run_routine r n R0 itr D s0 = Done res ->
-  (is_und r = true -> (forall x y, R0 x y = R0 y x) /\ (forall x, R0 x x = 0)) ->
+  (is_und r = true -> forall x y, R0 x y = R0 y x) ->
   let R1 := pre_matrix r n R0 (r_perm res) in
   exists k st,
     r_rp res = sR st /\
@@ -37,7 +37,7 @@ Proof. exact run_routine_good. Qed.
    identity when zero rewirings are requested or reported, Rlatt[ix_(ind_rp,ind_rp)] = Rrp *)
 Theorem C01_run_caller : forall r n R0 itr D s0 res,
   run_routine r n R0 itr D s0 = Done res ->
-  (is_und r = true -> (forall x y, R0 x y = R0 y x) /\ (forall x, R0 x x = 0)) ->
+  (is_und r = true -> forall x y, R0 x y = R0 y x) ->
   (is_latt r = true -> Permutation (r_perm res) (seq 0 n)) ->
   (forall x, (x < n)%nat -> outdeg n (r_out res) x = outdeg n R0 x) /\
   (forall y, (y < n)%nat -> indeg n (r_out res) y = indeg n R0 y) /\
@@ -53,20 +53,20 @@ Proof. exact run_routine_caller. Qed.
 (* randomize_graph_partial_und (a FULL statement about every run of that routine; the name is the routine's initials) *)
 Theorem C01_rgpu_run : forall n A B maxswap s0 res,
   run_partial_und n A B maxswap s0 = Done res ->
-  (forall x y, A x y = A y x) -> (forall x, A x x = 0) ->
+  (forall x y, A x y = A y x) ->
   exists k st,
     r_out res = sR st /\ Good true n k A st /\ GoodTrace true n k A (r_trace res) /\
     (maxswap = O -> r_out res = A).
 Proof. exact run_partial_good. Qed.
 
-(* the same in the caller's vocabulary: degrees, weight multiset, empty diagonal, symmetry, identity for maxswap = 0 *)
+(* the same in the caller's vocabulary: degrees, weight multiset, diagonal carried over, symmetry, identity for maxswap = 0 *)
 Theorem C01_rgpu_caller : forall n A B maxswap s0 res,
   run_partial_und n A B maxswap s0 = Done res ->
-  (forall x y, A x y = A y x) -> (forall x, A x x = 0) ->
+  (forall x y, A x y = A y x) ->
   (forall x, outdeg n (r_out res) x = outdeg n A x) /\
   (forall y, indeg n (r_out res) y = indeg n A y) /\
   (forall w, wcount n (r_out res) w = wcount n A w) /\
-  (forall x, r_out res x x = 0) /\
+  (forall x, r_out res x x = A x x) /\
   (forall x y, r_out res x y = r_out res y x) /\
   (maxswap = O -> r_out res = A).
 Proof. exact run_partial_caller. Qed.
@@ -143,18 +143,36 @@ Theorem C01_rbu_start_degrees : forall n R0 x, symmetricb n (bin01 R0) = true ->
   offdeg n (rbu_R3 n R0) x = (if nmem x (rbu_fl n R0) then 0 else offdeg n (rbu_R2 n R0) x - nfull n (rbu_R2 n R0)).
 Proof. exact rbu_start_degrees. Qed.
 
-(* REFUTED outside the documented domain: the undirected engine routines on a symmetric input with a NON-EMPTY DIAGONAL.
-   The hypothesis `forall x, R0 x x = 0` of C01_run_caller cannot be dropped: randmio_und(6-ring + self-connections at
-   nodes 0 and 3, itr=1, seed=317) of the implementation, replayed by the model, returns an asymmetric matrix in which
-   node 3 has lost a connection (np.where(np.tril(R)) lists (a,a) as an edge, the four-distinct test does not compare
-   a with b, and R[d,a] = R[b,a] then reads the cell just cleared).  known_findings.d/C01.json, proposed_fixes/. *)
-Theorem C01_und_selfloop_refuted :
-  exists (R0 : mat Z) (s0 : stream) (res : result),
-    (forall x y, R0 x y = R0 y x) /\
-    run_routine Randmio_und 6 R0 1 None s0 = Done res /\ r_left res = O /\
-    r_out res 4%nat 3%nat <> r_out res 3%nat 4%nat /\
-    outdeg 6 (r_out res) 3 <> outdeg 6 R0 3.
-Proof. exact und_selfloop_refuted. Qed.
+(* the undirected routines and self-connections (the former C01_und_selfloop_refuted, repaired in /repo fabf520: the edge
+   list is the STRICT lower triangle).  A self-connection is never an edge of the list and no accepted swap writes a diagonal
+   cell, so the theorems above need symmetry of the input only — no empty-diagonal hypothesis — and the diagonal of the input
+   is carried over unchanged: in the caller's numbering ... *)
+Theorem C01_und_diagonal : forall r n R0 itr D s0 res,
+  is_und r = true ->
+  run_routine r n R0 itr D s0 = Done res ->
+  (forall x y, R0 x y = R0 y x) ->
+  (is_latt r = true -> Permutation (r_perm res) (seq 0 n)) ->
+  forall x, (x < n)%nat -> r_out res x x = R0 x x.
+Proof. exact run_und_diag_caller. Qed.
+
+(* ... and in every recorded state (latticisation numbering) *)
+Theorem C01_und_diagonal_states : forall r n R0 itr D s0 res,
+  is_und r = true ->
+  run_routine r n R0 itr D s0 = Done res ->
+  (forall x y, R0 x y = R0 y x) ->
+  let R1 := pre_matrix r n R0 (r_perm res) in
+  (forall x, r_rp res x x = R1 x x) /\ Forall (fun ev => forall x, sR (snd ev) x x = R1 x x) (r_trace res).
+Proof. exact run_und_diag. Qed.
+
+Theorem C01_rgpu_diagonal : forall n A B maxswap s0 res,
+  run_partial_und n A B maxswap s0 = Done res ->
+  (forall x y, A x y = A y x) ->
+  (forall x, r_out res x x = A x x) /\ Forall (fun ev => forall x, sR (snd ev) x x = A x x) (r_trace res).
+Proof. exact run_partial_diag. Qed.
+
+(* not vacuous on such input: the former witness (6-ring with self-connections at nodes 0 and 3, randmio_und, itr=1,
+   seed=317) replayed on the repaired implementation: Proofs/RewireRefuted.v, und_selfloop_regression *)
+Definition C01_selfloop_regression := und_selfloop_regression.
 
 (* the tie by translation: Gen/RewireTable.v is regenerated from the AST of bct/algorithms/reference.py on every run
    (harness/translate_rewire.py, fail-closed); per routine it holds the edge-list source, the selection loop (two draws
@@ -224,7 +242,9 @@ Print Assumptions C01_rbu_step.
 Print Assumptions C01_rbu_full.
 Print Assumptions C01_rbu_start_degrees.
 Print Assumptions C01_rbu_zero_identity.
-Print Assumptions C01_und_selfloop_refuted.
+Print Assumptions C01_und_diagonal.
+Print Assumptions C01_und_diagonal_states.
+Print Assumptions C01_rgpu_diagonal.
 Print Assumptions C01_source_table.
 Print Assumptions C01_engine_is_table.
 Print Assumptions C01_rgpu_is_table.
